@@ -187,6 +187,15 @@ def fields_rule(rep, prog, cfg):
                     mode = m if mode in (None, m) else "mixed"
                 if any(n in DEFAULTING for n in names):
                     defaulted = True
+                    # "absent exactly when the server omitted them": a defaulted field reads as nothing (0 / empty / zero duration)
+                    # when the server sent nothing — any other stand-in value is a value the server never sent
+                    t2 = b.blocks[bb]["t"]
+                    if any(n.endswith("::unwrap_or") for n in names) and len(t2["args"]) == 2:
+                        c = op_const(t2["args"][1])
+                        zero = c is not None and (c.get("int") == 0 or str(c.get("c", "")).endswith(("::ZERO", "::MIN")) or c.get("c") in ("false", '""'))
+                        rep.check(zero, rule, "%s/%s.%s default is the zero value" % (cfg, short, fname), b.loc(b.blocks[bb]["ts"]),
+                                  "%s.%s stands in `%s` for a field the server omitted: the decoded value then carries a value the server never sent "
+                                  "(the documented default is the type's zero)" % (short, fname, (c or {}).get("c", "a computed value")))
             if defaulted and mode == "optional":
                 mode = "defaulted"
             attributed |= keys
